@@ -560,3 +560,11 @@ func specEEHex(c byte) bool {
 //@ ensures [C08.eexec.lead] result1 == nil ==> opos() == old(opos())
 //@ ensures [C08.eexec.lead] result1 == nil ==> !specEEWhite(specEEByte(55665, result0.buf, 0))
 //@ ensures [C08.eexec.lead] result1 == nil ==> !specEEHex(specEEByte(55665, result0.buf, 0)) || !specEEHex(specEEByte(55665, result0.buf, 1)) || !specEEHex(specEEByte(55665, result0.buf, 2)) || !specEEHex(specEEByte(55665, result0.buf, 3))
+
+// C13: a read fault of the underlying reader (ghost flag rfault()) while the
+// first byte is inspected, or later through the reader that replays it, is
+// returned to the caller.
+//@ func peek
+//@ ensures [C13.peek.fault] !old(rfault()) && rfault() ==> result2 != nil
+//@ func (*peekReader).Read
+//@ ensures [C13.peekreader.fault] !old(rfault()) && rfault() ==> result1 != nil
